@@ -266,3 +266,5 @@ func indexOf(ids []party.ID, x party.ID) int {
 	}
 	return -1
 }
+
+func reflectValue(v interface{}) reflect.Value { return reflect.ValueOf(v) }
